@@ -55,6 +55,44 @@ static const char* rcname(iwrc rc) {
   return buf;
 }
 
+// prefix-notation dump of a parsed pattern (same token form as `nodeToks` of the Lean driver); returns the tree size
+static int re_dump(const cregex_node_t *nd, const char *pat, int *budget, int depth) {
+  if (depth > 100000) { printf(" ?deep"); return 0; }
+  char tk[64]; int sz = 1; tk[0] = 0;
+  switch (nd->type) {
+    case REGEX_NODE_TYPE_EPSILON: snprintf(tk, sizeof(tk), "E"); break;
+    case REGEX_NODE_TYPE_CHARACTER: snprintf(tk, sizeof(tk), "C%d", (int) (unsigned char) nd->ch); break;
+    case REGEX_NODE_TYPE_ANY_CHARACTER: snprintf(tk, sizeof(tk), "A"); break;
+    case REGEX_NODE_TYPE_CHARACTER_CLASS: snprintf(tk, sizeof(tk), "K%ld:%ld", (long) (nd->from - pat), (long) (nd->to - pat)); break;
+    case REGEX_NODE_TYPE_CHARACTER_CLASS_NEGATED: snprintf(tk, sizeof(tk), "N%ld:%ld", (long) (nd->from - pat), (long) (nd->to - pat)); break;
+    case REGEX_NODE_TYPE_CONCATENATION: snprintf(tk, sizeof(tk), "."); break;
+    case REGEX_NODE_TYPE_ALTERNATION: snprintf(tk, sizeof(tk), "|"); break;
+    case REGEX_NODE_TYPE_QUANTIFIER: snprintf(tk, sizeof(tk), "Q%d,%d,%d", nd->nmin, nd->nmax, nd->greedy ? 1 : 0); break;
+    case REGEX_NODE_TYPE_ANCHOR_BEGIN: snprintf(tk, sizeof(tk), "B"); break;
+    case REGEX_NODE_TYPE_ANCHOR_END: snprintf(tk, sizeof(tk), "Z"); break;
+    case REGEX_NODE_TYPE_CAPTURE: snprintf(tk, sizeof(tk), "P"); break;
+    default: snprintf(tk, sizeof(tk), "?%d", (int) nd->type);
+  }
+  if (*budget > 0) { printf(" %s", tk); --*budget; }
+  switch (nd->type) {
+    case REGEX_NODE_TYPE_CONCATENATION: case REGEX_NODE_TYPE_ALTERNATION:
+      sz += re_dump(nd->left, pat, budget, depth + 1); sz += re_dump(nd->right, pat, budget, depth + 1); break;
+    case REGEX_NODE_TYPE_QUANTIFIER: sz += re_dump(nd->quantified, pat, budget, depth + 1); break;
+    case REGEX_NODE_TYPE_CAPTURE: sz += re_dump(nd->captured, pat, budget, depth + 1); break;
+    default: break;
+  }
+  return sz;
+}
+
+static int re_size(const cregex_node_t *nd) {
+  switch (nd->type) {
+    case REGEX_NODE_TYPE_CONCATENATION: case REGEX_NODE_TYPE_ALTERNATION: return 1 + re_size(nd->left) + re_size(nd->right);
+    case REGEX_NODE_TYPE_QUANTIFIER: return 1 + re_size(nd->quantified);
+    case REGEX_NODE_TYPE_CAPTURE: return 1 + re_size(nd->captured);
+    default: return 1;
+  }
+}
+
 static void on_alarm(int sig) {
   static const char m[] = "\nWATCHDOG: operation did not terminate\n";
   (void) sig;
@@ -253,7 +291,40 @@ int main(int argc, char **argv) {
       }
       free(prog); free(txt);
     }
-    // ======================================================== exploration ops (no model)
+    // ======================================================== regex front end (modelled: Model/Re.lean)
+    else if (!strcmp(w[0], "reparse") && n == 2) {
+      // reparse <pattern>: the tree the real parser builds (behind the empty-pattern guard of iwre_create), prefix notation
+      size_t l; char *pat = xbuf(w[1], &l, 1);
+      cregex_node_t *node = pat[0] ? cregex_parse(pat) : 0;
+      if (!node) printf("reparse fail\n");
+      else {
+        int budget = 3000;
+        printf("reparse ok %d", re_size(node));
+        re_dump(node, pat, &budget, 0);
+        printf("\n");
+        cregex_parse_free(node);
+      }
+      free(pat);
+    }
+    else if (!strcmp(w[0], "research") && n == 4) {
+      // research <nmatches> <pattern> <text>: iwre_create's steps (guard, parse, compile) then cregex_program_run
+      int nm = atoi(w[1]); size_t l, l2; char *pat = xbuf(w[2], &l, 1), *txt = xbuf(w[3], &l2, 1);
+      cregex_node_t *node = pat[0] ? cregex_parse(pat) : 0;
+      cregex_program_t *prog = node ? cregex_compile_node(node) : 0;
+      if (!prog || nm < 0 || nm > 256) printf("research fail\n");
+      else {
+        const char **mp = malloc(sizeof(char*) * (nm ? nm : 1));
+        memset(mp, 0, sizeof(char*) * (nm ? nm : 1));
+        int r = cregex_program_run(prog, txt, mp, nm);
+        printf("research %d", r);
+        for (int i = 0; i < nm; ++i) printf(" %d", mp[i] ? (int) (mp[i] - txt) : -1);
+        printf("\n");
+        free(mp);
+      }
+      if (prog) cregex_compile_free(prog);
+      if (node) cregex_parse_free(node);
+      free(pat); free(txt);
+    }
     else if (!strcmp(w[0], "recomp") && n == 2) {
       // recomp <pattern>: the program the real parser + compiler produce, as `revm` tokens
       size_t l; char *pat = xbuf(w[1], &l, 1);
@@ -283,7 +354,9 @@ int main(int argc, char **argv) {
       if (prog) cregex_compile_free(prog);
       if (node) cregex_parse_free(node);
       free(pat);
-    } else if ((!strcmp(w[0], "json") || !strcmp(w[0], "js")) && n == 2) {
+    }
+    // ======================================================== exploration ops (no model)
+    else if ((!strcmp(w[0], "json") || !strcmp(w[0], "js")) && n == 2) {
       size_t l; char *p = xbuf(w[1], &l, 1);
       struct iwpool *pool = iwpool_create(128);
       struct jbl_node *nd = 0;
